@@ -707,6 +707,7 @@ int mpq_EGlpNumReadStrXc (mpq_t var,
 	  exp_sgn = 0;
 	int n_char = 0,
 	  n_dig = 0,
+	  any_dig = 0,
 	  cn = 0;
 	mpq_t den[2];
 	mpq_init (den[0]);
@@ -735,6 +736,7 @@ int mpq_EGlpNumReadStrXc (mpq_t var,
 		case '7':
 		case '8':
 		case '9':
+			any_dig = 1;
 			/* if we haven't read the exponent then the digits bellongs to the mantisa
 			 * */
 			if (a_exp || n_dig == 0)
@@ -831,7 +833,8 @@ int mpq_EGlpNumReadStrXc (mpq_t var,
 		mpq_canonicalize (den[1]);
 		/* a zero divisor (as in "1/0", "1/" or "/") is not a number: report that
 		 * nothing was read instead of dividing by zero */
-		if (mpq_sgn (den[1]) == 0)
+		/* a lone sign or dot is not a number either */
+		if (mpq_sgn (den[1]) == 0 || !any_dig)
 			n_char = 0;
 		else
 			mpq_div (var, den[0], den[1]);
